@@ -186,7 +186,7 @@ class Unit:
                 kv = parse_kv(s[len('//@ EXTRACT-TYPE'):])
                 src = self.src(kv)
                 kind = 'struct' if 'struct' in kv else 'enum'
-                txt = type_text(src, kind, kv[kind], self.manifest)
+                txt = type_text(src, kind, kv[kind], self.manifest, kv['fields'].split(',') if 'fields' in kv else None)
                 if 'derive' in kv:
                     # D2 exception: the named std derives of a field-less enum are kept (Copy semantics)
                     txt = '#[derive(%s)]\n' % kv['derive'] + txt
@@ -227,6 +227,7 @@ class Unit:
                 try:
                     if is_block:
                         ft = BlockText(src, kv.get('in'), kv['fn'], kv['anchor'], int(kv.get('occurrence', 1)))
+                        ft.body_only = bool(kv.get('body'))
                     else:
                         ft = FnText(src, kv.get('in'), kv['fn'])
                 except ExtractError as e:
